@@ -101,14 +101,18 @@ def snapPayload (objSize : Nat → Option Nat) (keyframe : Bool) (old new : Snap
         let bs := Tw.Snap.packInts xs
         if bs.length > Tw.Gen.Demo.MAX_SNAPSHOT_SIZE then .tooLarge else .ok bs
 
+/-- the key-frame decision of `write_snap`: none written yet, or more than 250 ticks since the last -/
+def DemoWriter.isKeyframe (w : DemoWriter) (tick : Int) : Bool :=
+  match w.lastKeyframe with
+  | none => true
+  | some k => decide (tick - k > keyframeInterval)
+
 /-- `DemoWriter::write_snap` -/
 def DemoWriter.writeSnap (objSize : Nat → Option Nat) (w : DemoWriter) (tick : Int) (items : List Item) :
     DemoWriter × HResult :=
   if tick ≤ w.lastTick then (w, .err .tooLowTickNumber)
   else
-    let keyframe : Bool := match w.lastKeyframe with
-      | none => true
-      | some k => decide (tick - k > keyframeInterval)
+    let keyframe : Bool := w.isKeyframe tick
     match addItems w.builder items with
     | .panic => (w, .panic "Builder::add_item")
     | .err e =>
